@@ -186,6 +186,9 @@ CheckQuiescent(P, T, S, ln) ==
                  : i \in 1..Len(ln.pending)}
      ELSE {})
 
+MixedKinds(sr, k1, k2) == /\ sr[1] = "F" /\ {k1, k2} = {"error", "raised"}
+                          /\ \E c \in sr[2] : IsBaseTok(c)
+                          /\ \E c \in sr[2] : ~IsBaseTok(c)
 ErrMatches(v, S) == v \in S \/ (v[1] = "dag_error" /\ \E c \in S : c[1] = "unknown_label")
 
 CheckReturn(P, T, sm, s, ln) ==
@@ -233,12 +236,28 @@ CheckReturn(P, T, sm, s, ln) ==
               [] OTHER -> {})
       \cup
       (* schedule independence: every execution of this program gave run r the same outcome so far *)
-      (IF ~T.faulty /\ \E h \in hist : h[1] = ln.r /\ (h[2] # kind \/ (kind = "value" /\ h[3] # v)
+      (* (when required nodes fail concurrently, some with an Exception and some with a BaseException, which failure
+          the engine meets first decides between an error result and a raise: the property admits every cause) *)
+      (IF ~T.faulty /\ \E h \in hist : h[1] = ln.r /\ ((h[2] # kind /\ ~MixedKinds(sr, h[2], kind)) \/ (kind = "value" /\ h[3] # v)
                                          \/ (kind = "error" /\ ~T.amb /\ sr[1] = "F" /\ Cardinality(sr[2]) = 1 /\ h[3] # v))
        THEN {"C01.det"} ELSE {})
       \cup
-      (IF s.fresh # <<>> /\ (s.fresh[1] # kind \/ (kind = "value" /\ s.fresh[2] # v))
+      (IF s.fresh # <<>> /\ ((s.fresh[1] # kind /\ ~MixedKinds(sr, s.fresh[1], kind)) \/ (kind = "value" /\ s.fresh[2] # v))
        THEN (IF T.overlap THEN {"C08.solo"} ELSE {"C07.fresh"}) ELSE {})
+      \cup
+      (* retry policy, without the reference semantics: the run failed with the exception of a node that still had
+         attempts left for exactly that kind of exception (or with an artefact of the engine while such a node was
+         waiting for its next attempt) *)
+      (IF kind = "error" /\ ~T.faulty
+       THEN UNION {LET nd == Node(P, n)
+                       ce == CurExec(s.log, n)
+                       bes == SelectSeq(ce.ents, IsBE)
+                       last == bes[Len(bes)]
+                   IN  IF nd.attempts > 1 /\ Len(bes) > 0 /\ last[4][1] = "raise" /\ Matches(last[4][2][5], nd.excs)
+                          /\ Count(ce.ents, IsBS) < nd.attempts /\ (v = last[4][2] \/ v[1] = "exc")
+                       THEN {"C12.count"} ELSE {}
+                   : n \in {P.ids[i] : i \in 1..Len(P.ids)}}
+       ELSE {})
       \cup
       (* lifecycle: exactly one pipeline_complete, last, carrying the returned result *)
       (IF kind \in {"value", "error"}
@@ -346,6 +365,12 @@ CheckLine(P, T, S, ln) ==
       [] ln.e = "Snap"      -> CheckSnap(P, T, S[ln.r], ln)
       [] OTHER -> {}
 
+(* C14 speaks about event managers that do not raise: in an execution where an event callback is made to raise, what
+   the managers observe afterwards (e.g. a second node_complete reporting the callback's own exception) is not
+   constrained by it *)
+Excused(T) == IF "evfaulty" \in DOMAIN T /\ T.evfaulty
+              THEN {"C14.before", "C14.complete", "C14.final", "C14.pair", "C14.start"} ELSE {}
+
 Init ==
     /\ t = 1 /\ l = 1 /\ viol = {} /\ out = <<>> /\ done = FALSE /\ g = InitG /\ hist = {}
     /\ st = IF NT = 0 THEN <<>> ELSE InitSt(Traces[1])
@@ -356,7 +381,7 @@ Consume ==
     /\ LET T == Traces[t]
            P == Progs[T.pi]
            ln == T.lines[l]
-       IN  /\ viol' = viol \cup {<<c, l>> : c \in CheckLine(P, T, st, ln)}
+       IN  /\ viol' = viol \cup {<<c, l>> : c \in CheckLine(P, T, st, ln) \ Excused(T)}
            /\ st' = ApplyLine(st, ln)
            /\ g' = IF ln.e = "Snap" /\ g.snap = <<>>
                    THEN [g EXCEPT !.snap = [graph |-> ln.graph, classes |-> ln.classes]]
